@@ -143,7 +143,7 @@ func (r *runner) taintScan() {
 					continue
 				}
 				for _, e := range s.Entries {
-					byVer[e.Version] = append(byVer[e.Version], held{cl, fmt.Sprintf("%d|%d|%x", e.Meta&kv.BitDelete, e.ValueLen, e.Value)})
+					byVer[e.Version] = append(byVer[e.Version], held{cl, fmt.Sprintf("%d|%d|%x|%08x", e.Meta&kv.BitDelete, e.ValueLen, e.Value, e.Sum)})
 				}
 			}
 			for _, hs := range byVer {
